@@ -1,6 +1,7 @@
 import ScVerif.Base.Line
 import ScVerif.C05.Codec
 import ScVerif.C05.Opts
+import ScVerif.C05.Race
 import ScVerif.C06.Get
 /-!
 Driver handler shared by driverC05 and driverC06 (stateful: the state is the schema sent by the
@@ -25,6 +26,10 @@ harness in a `schema` line, taken from the real descriptors through protoreflect
                  WithUpdatePaths, WithMoreUpdatePaths, WithResetPaths, WithMoreWritablePaths: the constructor
                  the harness really called, mapped by `WCtor.opt`)
        outcome as for `set`; a panic ends the sequence
+       ropt 'X'<name>: a resource option that is not a mask (clock, equivalence, rng, id interceptor)
+  race <ty> <ropts> <stored> <step> <steps>|_       -> <outcome> => <stored-after>
+       the write <step> with the writes <steps> of others committed between its read and its re-check
+       (GetAndUpdate); outcome := err:<code> | aborted | panic | <stored'> <src'>
   rvalidate <ty> <mask>                             -> true|false          (ResponseFilter.Validate)
   rfilter <mask> <msg>                              -> msg | panic         (ResponseFilter.Filter/FilterClone)
   project <mask> <msg>                              -> msg                 (C06 specification)
@@ -65,6 +70,7 @@ def parseROpt (s : String) : Option ROpt :=
   match s.front, parseMask rest with
   | 'F', some m => some (.writableFields m)
   | 'P', some (some ps) => some (.writablePaths ps)
+  | 'X', _ => if rest.isEmpty then none else some (.other rest)
   | _, _ => none
 
 def parseStep (s : String) : Option Step :=
@@ -81,6 +87,15 @@ def showSetOut : SetOut → String
   | .err c => "err:" ++ c.show
   | .panic => "panic"
   | .ok st src => showMsg st ++ " " ++ showMsg src
+
+def showRaceOut : RaceOut → String
+  | .err c => "err:" ++ c.show
+  | .aborted => "aborted"
+  | .panic => "panic"
+  | .ok st src => showMsg st ++ " " ++ showMsg src
+
+def Step.rival (resW : Option (List Path)) (s : Step) : Rival :=
+  ⟨(computeWriteConfig s.opts).fieldUpdater resW, s.src⟩
 
 def handleS (S : Schema) (toks : List String) : Schema × String :=
   let bad := (S, "!bad-op")
@@ -146,6 +161,16 @@ def handleS (S : Schema) (toks : List String) : Schema × String :=
       | none => (S, "config-panic")
       | some resW => (S, " | ".intercalate ((runSeq S ty resW d steps).map showSetOut))
     | _, _, _, _ => bad
+  | ["race", ty, ro, d, outer, rivals] =>
+    match ty.toNat?, parseList parseROpt ro, parseMessage d, parseStep outer,
+        (if rivals = "_" then some [] else (rivals.splitOn "|").mapM parseStep) with
+    | some ty, some ro, some d, some outer, some rivals =>
+      match resourceWritable S ty ro with
+      | none => (S, "config-panic")
+      | some resW =>
+        let r := raceSet protoEqual S ty (outer.rival resW).u d outer.src (rivals.map (Step.rival resW))
+        (S, showRaceOut r.out ++ " => " ++ showMsg r.stored)
+    | _, _, _, _, _ => bad
   | ["rvalidate", ty, m] =>
     match ty.toNat?, parseMask m with
     | some ty, some m => (S, Line.showBool (C06.validate S ty m))
